@@ -122,7 +122,8 @@ impl SizesInfo {
 
     /// Maximum uncompressed available position
     fn max_uncompressed_pos(&self) -> u64 {
-        (self.compressed_sizes.len() as u64 - 1) * u64::from(UNCOMPRESSED_DATA_SIZE)
+        // No block at all (nothing has been written in the layer): the stream is empty
+        (self.compressed_sizes.len() as u64).saturating_sub(1) * u64::from(UNCOMPRESSED_DATA_SIZE)
             + u64::from(self.last_block_size)
     }
 
@@ -411,9 +412,15 @@ impl<R: Read + Seek> Seek for CompressionLayerReader<'_, R> {
         // Seeking may instantiate a decompressor, and therefore position the
         // inner layer at the end of the asked position's compressed block
         match &self.sizes_info {
-            Some(_sizes_info) => {
+            Some(sizes_info) => {
                 match pos {
                     SeekFrom::Start(pos) => {
+                        let end_pos = sizes_info.max_uncompressed_pos();
+                        if pos > end_pos {
+                            // Seeking past the end is unsupported
+                            return Err(Error::EndOfStream.into());
+                        }
+
                         // Find the right block
                         let inside_block = pos % u64::from(UNCOMPRESSED_DATA_SIZE);
                         let rounded_pos = pos - inside_block;
@@ -422,6 +429,13 @@ impl<R: Read + Seek> Seek for CompressionLayerReader<'_, R> {
                         let old_state =
                             std::mem::replace(&mut self.state, CompressionLayerReaderState::Empty);
                         let mut inner = old_state.into_inner();
+                        if pos == end_pos {
+                            // The end of the stream is a valid position, even if
+                            // there is no block to decompress there
+                            self.state = CompressionLayerReaderState::Ready(inner);
+                            self.underlayer_pos = pos;
+                            return Ok(pos);
+                        }
                         self.sync_inner_with_uncompressed_pos(&mut inner, rounded_pos)?;
 
                         // New decompressor at the start of the block
